@@ -115,6 +115,7 @@ func genA(r *sim.Rng, tier string) any {
 	}
 	if p.DevWindow == "valid" && r.Bool(0.15) {
 		// seconds to minutes around the moment the root expires (the device certificate is valid throughout)
+		p.DevWindow = "outlives_root"
 		end := int64(20 * 365 * 86400)
 		p.Clock = []int64{end - int64(r.Range(1, 500)), end + 1, end + int64(r.Range(2, 500))}
 	}
@@ -442,6 +443,8 @@ func execA(t *testing.T, raw json.RawMessage) *sim.Outcome {
 		nb, na = sim.Epoch.Add(-300*24*time.Hour), sim.Epoch.Add(-24*time.Hour)
 	case "not_yet":
 		nb, na = sim.Epoch.Add(50*365*24*time.Hour), sim.Epoch.Add(51*365*24*time.Hour)
+	case "outlives_root":
+		na = sim.Epoch.Add(30 * 365 * 24 * time.Hour)
 	case "lapsing":
 		na = sim.Epoch.Add(time.Duration(p.LapseSec) * time.Second)
 	case "starting":
